@@ -18,8 +18,8 @@ their path only when the call succeeded, `MkdirAll` always).  A Go map has no or
 `Props/C06.commit_order_irrelevant` shows that nothing observable depends on them.
 
 `Commit` with fault injection: `failAt = some k` makes the k-th (0-based) remote call of this Commit that
-can report an error (`Remove`, `RemoveAll`, `MkdirAll`, `Writer`) fail without effect (the harness's
-failing-remote decorator does the same).  Commit clears nothing, neither on success nor on failure
+can report an error fail: `Remove`, `RemoveAll`, `MkdirAll`, `Writer` (without effect), and the `Write` / `Close`
+calls on a writer the remote handed out (`remoteStream`; the harness's failing-remote decorator does the same).  Commit clears nothing, neither on success nor on failure
 (the journals and the buffer live as long as the cache): a later Commit replays everything again.
 
 The directory walk of `fshelper.Copy` runs in goroutines (one producer, one consumer); the model performs the
@@ -363,6 +363,22 @@ def commitMkdir (fa : Option Nat) (buffer : Node) : List Bytes → Node → Nat 
       | (r', _) => (r', n + 1, false)
     else commitMkdir fa buffer rest r n
 
+/-- `StreamCopy`'s calls on the remote for one file, numbered from `n`: `Writer(src)` (call `n`), one `Write` per
+chunk (calls `n+1 …`), `Close` (the last one).  An injected failure of `Writer` has no effect; a failing `Write` leaves
+the file as far as it was written (created / truncated by the open, earlier chunks in); a failing `Close` is
+reported after everything was written.  Result: the remote call's outcome and the next call number. -/
+def remoteStream (fa : Option Nat) (n : Nat) (src : Bytes) (chunks : List Bytes) (r : Node) : (Node × Result) × Nat :=
+  if fa = some n then ((r, .err), n + 1) else
+  match Root.writer r src [] with
+  | (_, .ok) =>
+    match fa with
+    | some k =>
+      if n < k ∧ k ≤ n + chunks.length then (((Root.writer r src (chunks.take (k - n - 1))).1, .err), k + 1)
+      else if k = n + chunks.length + 1 then (((Root.writer r src chunks).1, .err), k + 1)
+      else (Root.writer r src chunks, n + chunks.length + 2)
+    | none => (Root.writer r src chunks, n + chunks.length + 2)
+  | (r', e) => ((r', e), n + 1)
+
 /-- `for src = range c.changes.write { remote.MkdirAll(path.Dir(src)); if buffer.IsFile(src) { StreamCopy } }` -/
 def commitWrite (fa : Option Nat) (buffer : Node) : List Bytes → Node → Nat → CommitAcc
   | [], r, n => (r, n, true)
@@ -372,9 +388,9 @@ def commitWrite (fa : Option Nat) (buffer : Node) : List Bytes → Node → Nat 
       if isTrue (Root.isFile buffer src) then
         match Root.readFile buffer src with
         | .data d =>
-          match remoteCall fa (n + 1) (Root.writer · src (ioChunks d)) r1 with
-          | (r2, .ok) => commitWrite fa buffer rest r2 (n + 2)
-          | (r2, _) => (r2, n + 2, false)
+          match remoteStream fa (n + 1) src (ioChunks d) r1 with
+          | ((r2, .ok), n') => commitWrite fa buffer rest r2 n'
+          | ((r2, _), n') => (r2, n', false)
         | _ => (r1, n + 1, false)
       else commitWrite fa buffer rest r1 (n + 1)
     | (r1, _) => (r1, n + 1, false)
